@@ -236,10 +236,10 @@ def run_case(case):
             return result(False, sig=f"shape|{sig_ctx}", msg=f"{label}: occupation has shape {got.shape}", outcome="shape")
         if case.get("custom"):
             # only the well-prepared atoms are judged here (what the noise channel does to an absent atom is not the subject)
-            if np.abs(got[keep_idx] - occ[t][keep_idx]).max() > tol:
+            if not np.abs(got[keep_idx] - occ[t][keep_idx]).max() <= tol:  # NaN fails
                 return result(False, sig=f"occupation|good-atom|{case['backend']}|custom-matrix", msg=f"{label}: occupation of the well-prepared atoms at t={t} {np.round(got[keep_idx], 6).tolist()} but the reduced register gives {np.round(occ[t][keep_idx], 6).tolist()}", outcome="occ")
             continue
-        if np.abs(got - occ[t]).max() > tol:
+        if not np.abs(got - occ[t]).max() <= tol:  # NaN fails
             where = "bad-atom" if any(abs(got[i]) > tol for i in range(n) if case["mask"][i]) else "good-atom"
             return result(False, sig=f"occupation|{where}|{case['backend']}|{'perm' if case['perm'] else 'noperm'}", msg=f"{label}: occupation at t={t} {np.round(got, 6).tolist()} but the reduced register gives {np.round(occ[t], 6).tolist()}", outcome="occ")
     if case.get("custom"):
@@ -251,10 +251,10 @@ def run_case(case):
         # energies: dark atoms contribute nothing (no drive, no interaction, ground state)
         for t in (0.2, 0.5, 1.0):
             e = float(np.real(runner.to_np(runner.get_at(res, "energy", t))))
-            if abs(e - energy[t]) > tol * 10 * energy["scale"]:
+            if not abs(e - energy[t]) <= tol * 10 * energy["scale"]:  # NaN fails
                 return result(False, sig=f"energy|{case['backend']}|{case['kind']}", msg=f"{label}: energy at t={t} is {e:.6f} but the reduced register gives {energy[t]:.6f}", outcome="energy")
         e2 = float(np.real(runner.to_np(runner.get_at(res, "energy_second_moment", 1.0))))
-        if abs(e2 - energy["m2"]) > tol * 10 * energy["scale"] ** 2:
+        if not abs(e2 - energy["m2"]) <= tol * 10 * energy["scale"] ** 2:  # NaN fails
             return result(False, sig=f"energy_second_moment|{case['backend']}|{case['kind']}", msg=f"{label}: <H^2> at t=1 is {e2:.6f} but the reduced register gives {energy['m2']:.6f}", outcome="energy2")
     if n <= 3 and case["other"] == "none":
         def run():
@@ -268,6 +268,6 @@ def run_case(case):
         transitions += paths
         _, _, born50, _ = _reference(case, dt=50)
         dd = explore.dist_distance(dist, born50)
-        if dd > max(tol, 1e-6):
+        if not dd <= max(tol, 1e-6):  # NaN fails
             return result(False, sig=f"bitstrings|{case['backend']}", msg=f"{label}: exact bitstring distribution {rnd(dist, 5)} but the reduced register gives {rnd(born50, 5)}", outcome="bits")
     return result(True, outcome=["ok", rnd(occ[1.0], 4)], transitions=transitions, nontrivial=0 < good < n)
